@@ -42,31 +42,32 @@ impl Flow {
             output_stream: json_read::jarray_to_runtime_obj_list(
                 j_obj
                     .get("outputStream")
-                    .ok_or(StoryError::BadJson("outputStream not found.".to_owned()))?
-                    .as_array()
-                    .unwrap(),
+                    .and_then(|o| o.as_array())
+                    .ok_or(StoryError::BadJson("outputStream not found.".to_owned()))?,
                 false,
             )?,
             current_choices: json_read::jarray_to_runtime_obj_list(
                 j_obj
                     .get("currentChoices")
-                    .ok_or(StoryError::BadJson("currentChoices not found.".to_owned()))?
-                    .as_array()
-                    .unwrap(),
+                    .and_then(|o| o.as_array())
+                    .ok_or(StoryError::BadJson("currentChoices not found.".to_owned()))?,
                 false,
             )?
             .iter()
-            .map(|o| o.clone().into_any().downcast::<Choice>().unwrap())
-            .collect::<Vec<Rc<Choice>>>(),
+            .map(|o| {
+                o.clone().into_any().downcast::<Choice>().map_err(|_| {
+                    StoryError::BadJson("currentChoices holds a non-choice.".to_owned())
+                })
+            })
+            .collect::<Result<Vec<Rc<Choice>>, StoryError>>()?,
         };
 
         flow.callstack.borrow_mut().load_json(
             &main_content_container,
             j_obj
                 .get("callstack")
-                .ok_or(StoryError::BadJson("loading callstack".to_owned()))?
-                .as_object()
-                .unwrap(),
+                .and_then(|c| c.as_object())
+                .ok_or(StoryError::BadJson("loading callstack".to_owned()))?,
         )?;
         let j_choice_threads = j_obj.get("choiceThreads");
 
@@ -160,24 +161,30 @@ impl Flow {
         main_content_container: Rc<Container>,
     ) -> Result<(), StoryError> {
         for choice in self.current_choices.iter_mut() {
-            self.callstack
+            let found_thread = self
+                .callstack
                 .borrow()
                 .get_thread_with_index(*choice.original_thread_index.borrow())
-                .map(|o| choice.set_thread_at_generation(o.clone()))
-                .or_else(|| {
+                .cloned();
+
+            match found_thread {
+                Some(thread) => choice.set_thread_at_generation(thread),
+                None => {
                     let j_saved_choice_thread = j_choice_threads
                         .and_then(|c| c.get(choice.original_thread_index.borrow().to_string()))
-                        .ok_or("loading choice threads")
-                        .unwrap();
-                    choice.set_thread_at_generation(
-                        Thread::from_json(
-                            &main_content_container,
-                            j_saved_choice_thread.as_object().unwrap(),
-                        )
-                        .unwrap(),
-                    );
-                    Some(())
-                });
+                        .and_then(|t| t.as_object())
+                        .ok_or(StoryError::BadJson("loading choice threads".to_owned()))?;
+                    let thread = Thread::from_json(&main_content_container, j_saved_choice_thread)?;
+
+                    if thread.callstack.is_empty() {
+                        return Err(StoryError::BadJson(
+                            "Choice thread without elements".to_owned(),
+                        ));
+                    }
+
+                    choice.set_thread_at_generation(thread);
+                }
+            }
         }
 
         Ok(())
